@@ -31,6 +31,40 @@ def fam_label(fam):
     return ','.join('%s=%s' % (k, fam[k]) for k in sorted(fam) if k in ('kt_ratio', 'kt_finish'))
 
 
+def zero_stays_zero(ctx, oa, fams, bb, kt_l, r1, r2, key_prefix=''):
+    """For every builder path feasible at kt_start = +0: stored factor finite and non-negative (r1), and the schedule
+    variable's fixpoint in the stepping function stays {+0} (r2)."""
+    rep = ctx.rep
+    env = builder_env(F('+0'))
+    done = {}
+    n_feasible = 0
+    for fam in fams:
+        lab = fam_label(fam['family'])
+        if not feasible(fam, env):
+            continue        # e.g. the arm guarded by kt_start > 0
+        fv = field_values(fam['fields'], env)
+        r = fv.get('kt_ratio')
+        sig = (lab, repr(r))
+        if sig in done:
+            continue
+        done[sig] = True
+        n_feasible += 1
+        ok = r is not None and r[0] == 'f' and r[1] <= NONNEG_FINITE
+        rep.check(ok, r1, key_prefix + lab, where(bb),
+                  'cooling factor in %s for kt_start=+0' % show(r),
+                  'with kt_start = 0 and %s the cooling factor computed by the builder is %s (not finite/non-negative): '
+                  '0 * inf = NaN makes kT NaN after the first inner loop, min(exp(x/NaN),1) = 1, and every valid move '
+                  'is then accepted' % (lab, show(r)))
+        lf = LocalFix(oa.body, fv)
+        kv = lf.env.get(kt_l)
+        ok2 = kv is not None and kv[0] == 'f' and kv[1] <= frozenset(('+0',))
+        rep.check(ok2, r2, key_prefix + 'kt-stays-zero:' + lab, where(oa.body, oa.decision_bb),
+                  'kT in %s over all loop iterations' % show(kv),
+                  'starting from kT = +0 the temperature can become %s in the stepping function (%s)' % (show(kv), lab))
+        rep.sample('%s: kt_ratio field in %s; kT fixpoint %s' % (lab, show(r), show(kv)))
+    rep.floor(r1, 'feasible builder paths at kt_start=+0', n_feasible, 3, where(bb))
+
+
 def run(ctx):
     rep, f = ctx.rep, ctx.facts
     rep.trust('pk/sym.py, pk/absval.py (IEEE class arithmetic incl. 0*inf=NaN, x/0=inf, min(NaN,1)=1), pk/optmodel.py')
@@ -53,33 +87,7 @@ def run(ctx):
     if not rep.check(kt_l is not None, 'R2', 'anchor:schedule-variable', where(oa.body, oa.decision_bb), '_%s' % kt_l,
                      'cannot identify the temperature local passed to the decision', 'anchor-lost'):
         return
-    done = {}
-    n_feasible = 0
-    for fam in fams:
-        lab = fam_label(fam['family'])
-        if not feasible(fam, env):
-            continue        # e.g. the arm guarded by kt_start > 0
-        fv = field_values(fam['fields'], env)
-        r = fv.get('kt_ratio')
-        sig = (lab, repr(r))
-        if sig in done:
-            continue
-        done[sig] = True
-        n_feasible += 1
-        ok = r is not None and r[0] == 'f' and r[1] <= NONNEG_FINITE
-        rep.check(ok, 'R1', lab, where(bb),
-                  'cooling factor in %s for kt_start=+0' % show(r),
-                  'with kt_start = 0 and %s the cooling factor computed by the builder is %s (not finite/non-negative): '
-                  '0 * inf = NaN makes kT NaN after the first inner loop, min(exp(x/NaN),1) = 1, and every valid move '
-                  'is then accepted' % (lab, show(r)))
-        lf = LocalFix(oa.body, fv)
-        kv = lf.env.get(kt_l)
-        ok2 = kv is not None and kv[0] == 'f' and kv[1] <= frozenset(('+0',))
-        rep.check(ok2, 'R2', 'kt-stays-zero:' + lab, where(oa.body, oa.decision_bb),
-                  'kT in %s over all loop iterations' % show(kv),
-                  'starting from kT = +0 the temperature can become %s in the stepping function (%s)' % (show(kv), lab))
-        rep.sample('%s: kt_ratio field in %s; kT fixpoint %s' % (lab, show(r), show(kv)))
-    rep.floor('R1', 'feasible builder paths at kt_start=+0', n_feasible, 3, where(bb))
+    zero_stays_zero(ctx, oa, fams, bb, kt_l, 'R1', 'R2')
     # R3 decision at zero temperature
     db = oa.decision_body
     if rep.check(db is not None, 'R3', 'anchor:decision-function', where(oa.body, oa.decision_bb), 'found',
